@@ -664,7 +664,10 @@ class Prop(Check):
     MODELLED = ("hand-modelled: metamodel.py _enter_namespace/_leave_namespace/_new_import/_init_class/_cls_fqn/__getitem__ and "
                 "the load order of lang.py (imports, classes, second pass) as Imp.loadMain; tie X: classes and _tx_fqn per "
                 "namespace, attribute class and PEG-rule class of every reference (the match rule of a link included), "
-                "metamodel[name], opened files, duplicate class objects, fqn trees with the values of parsed texts; not "
+                "metamodel[name], opened files, duplicate class objects, fqn trees with the values of parsed texts; failed "
+                "loads: the file reported missing, and the name reported unresolvable must be one of the references of the "
+                "failing file that the model cannot resolve at that point; the files-only specification of the theorems "
+                "(Lean docResolve per reference, docLoadable) against the oracle's doc_resolve and the outcome of the load; not "
                 "modelled: referenced languages (reference statement), duplicate rule names inside one file, user classes, "
                 "rule kinds (a match rule is a rule without references)")
     ASSUMPTIONS = [
